@@ -425,9 +425,13 @@ impl World {
 		}
 		let mut res = vec![];
 		if let Ok(store) = grin_store::Store::new(&dst, None, Some("db"), None) {
-			if let Ok(it) = store.iter(&[], |k, v| Ok((k.to_vec(), v.to_vec()))) {
-				for kv in it {
-					res.push(kv);
+			// LMDB refuses a zero-length key, so "every key" is the union over all
+			// one-byte prefixes
+			for b in 0u16..=255 {
+				if let Ok(it) = store.iter(&[b as u8], |k, v| Ok((k.to_vec(), v.to_vec()))) {
+					for kv in it {
+						res.push(kv);
+					}
 				}
 			}
 		}
@@ -439,7 +443,14 @@ impl World {
 	/// stored transactions, seed files
 	pub fn dir_digest(&self, idx: usize) -> u64 {
 		let mut h = 0u64;
-		for (k, v) in self.raw_db(idx) {
+		let db = self.raw_db(idx);
+		if db.is_empty() && std::path::Path::new(&format!("{}/wallet_data/db/lmdb/data.mdb", self.wallets[idx].top_dir)).exists() {
+			// an initialised wallet always holds at least its default account record: an
+			// empty read means the digest would be blind to the database
+			eprintln!("HARNESS-ERROR: raw database read of wallet {} returned nothing", idx);
+			std::process::exit(2);
+		}
+		for (k, v) in db {
 			h = crate::rng::mix(&[h, crate::rng::hash_bytes(&k), crate::rng::hash_bytes(&v)]);
 		}
 		let base = format!("{}/wallet_data", self.wallets[idx].top_dir);
@@ -463,6 +474,76 @@ impl World {
 			h = crate::rng::mix(&[h, crate::rng::hash_str(&name), crate::rng::hash_bytes(&content)]);
 		}
 		h
+	}
+
+	/// everything durable in the wallet directory, item by item (for reports: which kind
+	/// of record a call changed): LMDB records keyed "db:<prefix letter>:<key hex>", files
+	/// keyed "file:<name>"; values are content hashes
+	pub fn dir_state(&self, idx: usize) -> BTreeMap<String, u64> {
+		let mut m = BTreeMap::new();
+		let db = self.raw_db(idx);
+		if db.is_empty() && std::path::Path::new(&format!("{}/wallet_data/db/lmdb/data.mdb", self.wallets[idx].top_dir)).exists() {
+			eprintln!("HARNESS-ERROR: raw database read of wallet {} returned nothing", idx);
+			std::process::exit(2);
+		}
+		for (k, v) in db {
+			let letter = k.first().map(|b| *b as char).unwrap_or('?');
+			m.insert(format!("db:{}:{}", letter, grin_util::ToHex::to_hex(&k)), crate::rng::hash_bytes(&v));
+		}
+		let base = format!("{}/wallet_data", self.wallets[idx].top_dir);
+		for dir in [format!("{}/saved_txs", base), base.clone()].iter() {
+			if let Ok(rd) = std::fs::read_dir(dir) {
+				for e in rd.flatten() {
+					if e.path().is_file() {
+						let name = e.path().file_name().unwrap().to_string_lossy().to_string();
+						let kind = if dir.ends_with("saved_txs") { "stored_tx" } else { "file" };
+						let content = std::fs::read(e.path()).unwrap_or_default();
+						m.insert(format!("{}:{}", kind, name), crate::rng::hash_bytes(&content));
+					}
+				}
+			}
+		}
+		m
+	}
+
+	/// which kinds of durable items differ between two directory states, e.g.
+	/// "index+output+log" (record kinds by LMDB prefix, "stored_tx", "file")
+	pub fn dir_diff_kinds(a: &BTreeMap<String, u64>, b: &BTreeMap<String, u64>) -> String {
+		let mut kinds: std::collections::BTreeSet<&'static str> = Default::default();
+		let name = |k: &str| -> &'static str {
+			if k.starts_with("db:o:") {
+				"output"
+			} else if k.starts_with("db:d:") {
+				"index"
+			} else if k.starts_with("db:c:") {
+				"confirmed_height"
+			} else if k.starts_with("db:p:") {
+				"context"
+			} else if k.starts_with("db:t:") {
+				"log"
+			} else if k.starts_with("db:i:") {
+				"log_id"
+			} else if k.starts_with("db:a:") {
+				"account"
+			} else if k.starts_with("db:") {
+				"other_record"
+			} else if k.starts_with("stored_tx:") {
+				"stored_tx"
+			} else {
+				"file"
+			}
+		};
+		for (k, v) in a {
+			if b.get(k) != Some(v) {
+				kinds.insert(name(k));
+			}
+		}
+		for k in b.keys() {
+			if !a.contains_key(k) {
+				kinds.insert(name(k));
+			}
+		}
+		kinds.into_iter().collect::<Vec<_>>().join("+")
 	}
 
 	pub fn close_all(&mut self) {
